@@ -267,6 +267,15 @@ def id_lifecycle(check: Check, repo: Repo) -> None:
     txt = [unparse(s) for s in walk_body(ens) if isinstance(s, ast.stmt)]
     ok = "id_ = str(self._next_id)" in txt and "self._next_id += 1" in txt and "self._ids[node] = id_" in txt
     check.ob(rule, ens, "_ensure_id assigns str(_next_id), increments, stores", ok, "")
+    # who may allocate: the announcement builder and the event handler; every lookup uses .get
+    allocators = {"_to_pending_results", "_handle_work_queue_event"}
+    for m in ci.methods().values():
+        for c in walk_body(m):
+            if isinstance(c, ast.Call) and call_name(c) == "self._ensure_id":
+                ok = m.name in allocators
+                check.ob(rule, c, f"{m.name}: {unparse(c)}", ok,
+                         "allocation site of an announcing / completing handler" if ok else
+                         f"`{m.name}` is a lookup helper: allocating an id here hands out the id of a group that was never announced as pending")
     # completed <-> delete pairing per branch
     fn = ci.methods()["_handle_work_queue_event"]
     n_blocks = 0
@@ -582,3 +591,53 @@ def derived_state(check: Check, repo: Repo, rule: str = "DERIVED-STATE") -> None
                           f"attribute(s) {stale} were computed in __init__ from `{a}` and are not re-derived for the copy: they still hold the original's value"))
     if n < 2:
         raise AnalysisError("DERIVED-STATE: copy constructors of the executor not found")
+
+
+# -- "an ancestor is in the set" means *any* ancestor -------------------------------------------------
+
+ANCESTOR_WALKS = [
+    # (module, function, link attribute, set expression tested, root (None) must be tested too)
+    ("execution.incremental.build_execution_plan", "get_filtered_defer_usage_set", "parent_defer_usage", False),
+    ("execution.executor", "CollectedErrors.has_nulled_position", "prev", True),
+]
+
+
+def ancestor_walk(check: Check, repo: Repo, rule: str = "ANCESTOR-WALK") -> None:
+    check.rule(
+        rule,
+        "where membership of an ancestor decides (a defer usage is dropped when an enclosing defer usage is in "
+        "the set; an error is dropped when an enclosing position is already nulled), the test runs in a loop "
+        "that follows the parent link to the end of the chain - `x = x.<link>` until None - and, for paths, "
+        "the root position None is tested as well; testing the direct parent only lets a grand-child of an "
+        "announced fragment be announced while the enclosing fragment is still pending",
+    )
+    for mn, q, link, root in ANCESTOR_WALKS:
+        fn = repo.func(mn, q)
+        tests = []
+        for c in ast.walk(fn):
+            if isinstance(c, ast.Compare) and len(c.ops) == 1 and isinstance(c.ops[0], (ast.In, ast.NotIn)):
+                tests.append(c)
+        walked = []
+        for w in ast.walk(fn):
+            if not isinstance(w, ast.While):
+                continue
+            adv = [s for s in ast.walk(w) if isinstance(s, ast.Assign) and len(s.targets) == 1 and isinstance(s.targets[0], ast.Name)
+                   and isinstance(s.value, ast.Attribute) and s.value.attr == link and unparse(s.value.value) == s.targets[0].id]
+            if not adv:
+                continue
+            var = adv[0].targets[0].id
+            until_none = f"{var} is not None" in unparse(w.test) or unparse(w.test) == var
+            inside = [t for t in tests if any(x is t for x in ast.walk(w)) and unparse(t.left) == var]
+            walked.append((w, var, until_none, inside))
+        ok = any(un and ins for _w, _v, un, ins in walked)
+        direct = [t for t in tests if isinstance(t.left, ast.Attribute) and t.left.attr == link]
+        check.ob(rule, fn, f"{q}: membership of an ancestor is tested along the whole `{link}` chain", ok and not direct,
+                 f"while-loop over `{walked[0][1]} = {walked[0][1]}.{link}` until None with the membership test inside" if ok and not direct else
+                 (f"`{unparse(direct[0])}` looks at the direct parent only" if direct else f"no loop that follows `.{link}` to the end with the membership test inside"))
+        if root:
+            rets = [r for r in walk_body(fn) if isinstance(r, ast.Return) and r.value is not None]
+            last = rets[-1] if rets else None
+            root_ok = last is not None and isinstance(last.value, ast.Compare) and unparse(last.value.left) == "None" and isinstance(last.value.ops[0], ast.In)
+            check.ob(rule, last or fn, f"{q}: the root position (None) counts as an ancestor", root_ok,
+                     "falls through to `None in <set>` after the chain ended" if root_ok else
+                     "after the chain ended the root position None is not looked up")
